@@ -101,6 +101,13 @@ def _fraction_part(part):
             want = q_of(newnum) / qa.denominator
             if b.x != want:
                 part.violation("C18:Fraction:%s.numerator = %r" % (_fr_expr(ta), newnum), {"got": repr(b), "want": str(want)})
+        for newden in (4, -2, 0.5, 0.25):
+            part.count("evaluations")
+            b = a.copy()
+            r = _run(lambda: setattr(b, "denominator", newden))
+            want = qa.numerator / q_of(newden)
+            if r[0] != "ok" or b.x != want:
+                part.violation("C18:Fraction:%s.denominator = %r" % (_fr_expr(ta), newden), {"got": repr(b), "outcome": repr(r), "want": str(want)})
         # binary with fractions
         for tb in FR:
             qb = q_of(*tb)
@@ -124,12 +131,14 @@ def _fraction_part(part):
         # mixed with numbers, both sides
         for k in NUMS:
             qk = q_of(k)
-            for name, op in ARITH[:4]:
+            for name, op in ARITH:
                 for side in ("right", "left"):
+                    if name == "%" and side == "left":
+                        continue  # number % Fraction is not offered
                     part.count("evaluations")
                     if side == "right":
                         r = _run(lambda: op(a, k).x)
-                        want = ("raise", "ZeroDivisionError") if (qk == 0 and name == "/") else ("ok", op(qa, qk))
+                        want = ("raise", "ZeroDivisionError") if (qk == 0 and name in "/%") else ("ok", op(qa, qk))
                     else:
                         r = _run(lambda: op(k, a).x)
                         want = ("raise", "ZeroDivisionError") if (qa == 0 and name == "/") else ("ok", op(qk, qa))
